@@ -374,21 +374,20 @@ func handleLPush(params internal.HandlerFuncParams) ([]byte, error) {
 	key := keys.WriteKeys[0]
 	keyExists := params.KeysExist(params.Context, keys.WriteKeys)[key]
 
+	// A new list is created by the single write below: if that write is refused
+	// (max-memory), no empty list is left behind.
+	l := []string{}
 	if !keyExists {
-		switch strings.ToLower(params.Command[0]) {
-		case "lpushx":
+		if strings.ToLower(params.Command[0]) == "lpushx" {
 			return nil, errors.New("LPUSHX command on non-existent key")
-		default:
-			if err = params.SetValues(params.Context, map[string]interface{}{key: []string{}}); err != nil {
-				return nil, err
-			}
 		}
-	}
-
-	currentList := params.GetValues(params.Context, []string{key})[key]
-	l, ok := currentList.([]string)
-	if !ok {
-		return nil, errors.New("LPUSH command on non-list item")
+	} else {
+		currentList := params.GetValues(params.Context, []string{key})[key]
+		var ok bool
+		l, ok = currentList.([]string)
+		if !ok {
+			return nil, errors.New("LPUSH command on non-list item")
+		}
 	}
 
 	if err = params.SetValues(params.Context, map[string]interface{}{key: append(newElems, l...)}); err != nil {
@@ -413,21 +412,20 @@ func handleRPush(params internal.HandlerFuncParams) ([]byte, error) {
 		newElems = append(newElems, elem)
 	}
 
+	// A new list is created by the single write below: if that write is refused
+	// (max-memory), no empty list is left behind.
+	l := []string{}
 	if !keyExists {
-		switch strings.ToLower(params.Command[0]) {
-		case "rpushx":
+		if strings.ToLower(params.Command[0]) == "rpushx" {
 			return nil, errors.New("RPUSHX command on non-existent key")
-		default:
-			if err = params.SetValues(params.Context, map[string]interface{}{key: []string{}}); err != nil {
-				return nil, err
-			}
 		}
-	}
-
-	currentList := params.GetValues(params.Context, []string{key})[key]
-	l, ok := currentList.([]string)
-	if !ok {
-		return nil, errors.New("RPUSH command on non-list item")
+	} else {
+		currentList := params.GetValues(params.Context, []string{key})[key]
+		var ok bool
+		l, ok = currentList.([]string)
+		if !ok {
+			return nil, errors.New("RPUSH command on non-list item")
+		}
 	}
 
 	if err = params.SetValues(params.Context, map[string]interface{}{key: append(l, newElems...)}); err != nil {
